@@ -93,3 +93,21 @@ Fixpoint chain_on_diskb (rd : Z -> Z) (ns : list dnode) (start : Z) : bool :=
   | [] => start =? 0
   | n :: r => (start =? s_blk (dn_s n)) && negb (start =? 0) && node_on_diskb rd n && chain_on_diskb rd r (nthz (s_n (dn_s n)) 0)
   end.
+
+(* ---- the hypothesis of the read-back theorems, tested on a real image: decode every node of a database, then ask whether
+        the image holds the encoding of what was decoded (node block, data-block header + index, every record) ---- *)
+Definition decode_node (rd : Z -> Z) (blk : Z) : option dnode :=
+  let s := read_sblk rd blk in
+  match read_kvblk rd (s_kblk s), node_recs rd s with
+  | Some kb, Some recs => Some {| dn_s := s; dn_szpow := k_szpow kb; dn_pidx := k_pidx kb; dn_recs := recs |}
+  | _, _ => None
+  end.
+Definition db_canonical (rd : Z -> Z) (fsize : Z) (dbid : Z) : bool :=
+  match find_db rd 4096 (first_db rd) dbid with
+  | None => false
+  | Some dblk =>
+    match walk rd (walk_fuel fsize) 0 (u32 rd (addr_of dblk + DOFF_N0_U4)) [] with
+    | None => false
+    | Some l => forallb (fun b => match decode_node rd b with Some n => node_on_diskb rd n | None => false end) l
+    end
+  end.
